@@ -49,7 +49,7 @@ func runC07(o *opts) (*summary, error) {
 	if err != nil {
 		return nil, err
 	}
-	w.only = parseOnly(o.extra)
+	w.only = parseOnly(o.extraArg("only"))
 	rng := rand.New(rand.NewSource(o.seed))
 	g := &G{r: rng, inDomain: false}
 	thorough := o.tier == "thorough"
